@@ -2,7 +2,8 @@
 (***************************************************************************)
 (* C13.  The exact GMRES oracle on a catalog of small systems.             *)
 (*                                                                         *)
-(* State: one catalog case c = (A, b, x0) and an iteration budget m.       *)
+(* State: one catalog case c = (A, b, x0), an iteration budget m, the      *)
+(* exact optimum o = GmresOpt(A,b,x0,m) and the previous rho2 (prev).      *)
 (* m runs from 0 (the initial guess) to n + 2 (beyond the dimension).      *)
 (* In every state TLC checks, on the exact minimiser GmresOpt(A,b,x0,m):   *)
 (*   - the catalog is admissible (A square, invertible, integer),          *)
@@ -18,20 +19,27 @@
 (***************************************************************************)
 EXTENDS LeastSquares, GmresCatalog, Json, TLC
 
-VARIABLES c, m
-vars == <<c, m>>
+\* o = GmresOpt(.., m), the exact optimum of the current state; prev = rho2 of the preceding budget
+\* (the oracle is evaluated once per state, in the action, i.e. on TLC's worker threads)
+VARIABLES c, m, o, prev
+vars == <<c, m, o, prev>>
 
 Case == GCases[c]
 N == Case.A.r
 
-Init == c \in 1..Len(GCases) /\ m = 0
-Next == m < N + 2 /\ m' = m + 1 /\ c' = c
-Spec == Init /\ [][Next]_vars
-
 R0 == MSub(Case.b, MMul(Case.A, Case.x0))
-Opt(mm) == GmresOpt(Case.A, Case.b, Case.x0, mm)
+OptOf(cc, mm) == GmresOpt(GCases[cc].A, GCases[cc].b, GCases[cc].x0, mm)
 Gal(mm) == GalerkinOpt(Case.A, Case.b, Case.x0, mm)
 KD == KDim(Case.A, R0)
+
+Init == /\ c \in 1..Len(GCases) /\ m = 0
+        /\ o = [x |-> GCases[c].x0, rho2 |-> QInt(0), j |-> 0]      \* placeholder: m = 0 is evaluated by Opt(0)
+        /\ prev = QInt(0)
+Next == /\ m < N + 2 /\ m' = m + 1 /\ c' = c
+        /\ o' = OptOf(c, m + 1)
+        /\ prev' = IF m = 0 THEN Norm2(R0) ELSE o.rho2
+Spec == Init /\ [][Next]_vars
+Opt(mm) == IF mm = 0 THEN GmresOpt(Case.A, Case.b, Case.x0, 0) ELSE o
 
 CatalogOK ==
     /\ Case.A.r = Case.A.c /\ Case.A.d = 1 /\ Case.b.d = 1 /\ Case.x0.d = 1
@@ -40,7 +48,7 @@ CatalogOK ==
     /\ Case.kdim = KD                      \* the harness's own exact pre-computation agrees
 
 ResidualBound == QLeqNN(Opt(m).rho2, Norm2(R0))
-Monotone == m >= 1 => QLeqNN(Opt(m).rho2, Opt(m - 1).rho2)
+Monotone == m >= 1 => QLeqNN(o.rho2, prev)
 ZeroIffExhausted == QIsZero(Opt(m).rho2) <=> (m >= KD)
 PrefixIsKrylovDim == Opt(m).j = Min2(m, KD)
 
@@ -49,11 +57,11 @@ Certificates ==
     LET j == Min2(m, KD) IN
     j >= 1 =>
       LET K == Krylov(Case.A, R0, j)
-          o == Opt(m)
+          oo == Opt(m)
           g == Gal(m)
-      IN /\ MIsZero(MMul(MAdj(MMul(Case.A, K)), MSub(Case.b, MMul(Case.A, o.x))))
+      IN /\ MIsZero(MMul(MAdj(MMul(Case.A, K)), MSub(Case.b, MMul(Case.A, oo.x))))
          /\ (g.def => MIsZero(MMul(MAdj(K), MSub(Case.b, MMul(Case.A, g.x)))))
-         /\ (g.def => QLeqNN(o.rho2, g.rho2))
+         /\ (g.def => QLeqNN(oo.rho2, g.rho2))
 
 \* det(K^H K) # 0  <=>  some maximal minor # 0, evaluated where the Gram determinant fits in 32 bits
 RankTestsAgree ==
@@ -63,9 +71,9 @@ RankTestsAgree ==
           => (FullColRank(K) <=> (GramDet(K) # CZ))
 
 Out ==
-    LET o == Opt(m)
+    LET oo == Opt(m)
         g == Gal(m)
-    IN [id |-> Case.id, m |-> m, n |-> N, x |-> o.x, rho2 |-> o.rho2, rho2_0 |-> Norm2(R0), kdim |-> KD,
-        j |-> o.j, gdef |-> g.def, gx |-> g.x, grho2 |-> g.rho2]
+    IN [id |-> Case.id, m |-> m, n |-> N, x |-> oo.x, rho2 |-> oo.rho2, rho2_0 |-> Norm2(R0), kdim |-> KD,
+        j |-> oo.j, gdef |-> g.def, gx |-> g.x, grho2 |-> g.rho2]
 Emit == PrintT(ToJson(Out))
 =============================================================================
